@@ -91,6 +91,8 @@ def gen_cases(tier, seed):
 
     for (m, n) in [(1, 1), (1, 2), (1, 3), (2, 2)]:
         add(m, n, ENT5, 50, SCALES, both)
+        # far scales (possible since IMTL-G's scale-dependent guard was repaired, DESIGN 7.3): the defining equations are scale-free
+        add(m, n, ENT5, 50, (1e-13, 1e13), ["float64"])
     if tier == "quick":
         add(2, 3, ENT4, 32, SCALES, ["float64"], extra32=True)
         add(3, 3, ENT3, 100, [1.0], both)
@@ -328,6 +330,7 @@ def _run_zero(acc, case):
     import torch
 
     m = case["m"]
+    _AGG.clear()  # fresh instances for this case (they are deliberately reused inside it)
     for n in range(1, 6):
         for dtype in case["dtypes"]:
             Jt = torch.zeros(m, n, dtype=getattr(torch, dtype))
@@ -344,12 +347,28 @@ def _run_zero(acc, case):
                 if not (x == 0).all():
                     acc.viol.append(dict(sig=f"zero-matrix-nonzero-output:{name}", cls=f"Z:{name}:{dtype}",
                                          msg=f"{name} pref={_pref_key(p)} on {desc}: {x.tolist()}"))
+            # the very same instances, right after the all-zero matrix, on a full-rank matrix: they must behave like new ones
+            # (an aggregator that edits its preference vector in place for null rows would not)
+            if n == m:
+                dt = getattr(torch, dtype)
+                J1 = torch.eye(m, dtype=dt) * 2.0 + torch.diag(torch.ones(m - 1, dtype=dt), 1) * 0.5 if m > 1 else torch.full((1, 1), 2.0, dtype=dt)
+                for name, p in calls:
+                    x, _ = _call(acc, name, p, J1, dtype, f"{desc} then full-rank")
+                    _AGG.pop((name, _pref_key(p), dtype), None)
+                    y, _ = _call(acc, name, p, J1, dtype, f"fresh instance on full-rank {m}x{m}")
+                    if x is None or y is None:
+                        continue
+                    if not np.array_equal(x, y):
+                        acc.viol.append(dict(sig=f"stateful-after-zero-matrix:{name}", cls=f"ZS:{name}:{dtype}",
+                                             msg=f"{name} pref={_pref_key(p)} {dtype}: after a call on zeros({m},{m}) the same instance returns {x.tolist()} "
+                                                 f"on {J1.tolist()}, a new instance returns {y.tolist()}"))
 
 
 def run_case(case):
     acc = _Acc()
     if case["kind"] == "zero":
         _run_zero(acc, case)
+        _AGG.clear()
         return acc.result()
     m, n = case["m"], case["n"]
     if case["kind"] == "int":
